@@ -100,6 +100,22 @@ def path_provenance(m, q, call):
         cands = [a for a in tested if len(attrs.get(a, [])) == 1]
         if len(cands) == 1:
             flags = {cands[0]: [(attrs[cands[0]][0], True), (attrs[cands[0]][0], False)]}
+    # the attribute may be a copy (or the negation) of a local that is branched on as well: `remote = <test>; self.X = not remote;
+    # if remote: ...` - conditions on that local follow the partition too
+    local_alias = None
+    if len(flags) == 1:
+        attr0, sets0 = list(flags.items())[0]
+        if len({id(n_) for n_, v_ in sets0}) == 1:
+            v0 = sets0[0][0].ast.value
+            if isinstance(v0, ast.Name):
+                local_alias = (v0.id, True)
+            elif isinstance(v0, ast.UnaryOp) and isinstance(v0.op, ast.Not) and isinstance(v0.operand, ast.Name):
+                local_alias = (v0.operand.id, False)
+            if local_alias is not None:
+                nst = [n_ for n_ in g.nodes if n_.kind == "stmt" and isinstance(n_.ast, ast.Assign) and any(
+                    isinstance(t_, ast.Name) and t_.id == local_alias[0] for t_ in n_.ast.targets)]
+                if len(nst) != 1:
+                    local_alias = None
     if len(flags) == 1:
         attr, sets = list(flags.items())[0]
         for setter, val in sets:
@@ -108,6 +124,9 @@ def path_provenance(m, q, call):
                 node = g.nodes[a]
                 if node.kind == "cond" and isinstance(node.ast, ast.Attribute) and pyfront.dotted(node.ast) == "self." + attr:
                     return lab in ("T" if val else "F", "exc", None)
+                if local_alias is not None and node.kind == "cond" and isinstance(node.ast, ast.Name) and node.ast.id == local_alias[0]:
+                    lv = val if local_alias[1] else (not val)
+                    return lab in ("T" if lv else "F", "exc", None)
                 return True
             reach = g.reach([setter.id], edge_filter=filt)
             if target.id not in reach:
